@@ -30,6 +30,10 @@ pub fn run_a_star(
         return Ok(SearchResult::default());
     }
 
+    // an origin that is not in the graph has no search tree: report it instead of
+    // answering a destination-less query with an empty result
+    si.directed_graph.get_vertex(&source)?;
+
     // context for the search (graph, search functions, frontier priority queue)
     let mut costs: InternalPriorityQueue<VertexId, ReverseCost> = InternalPriorityQueue::default();
     let mut traversal_costs: HashMap<VertexId, Cost> = HashMap::new();
